@@ -122,6 +122,9 @@ type Program struct {
 	Explicit map[string]bool `json:"explicit,omitempty"`
 	// DefaultM replaces the declared default of the optional integer input field m (YAML text).
 	DefaultM string `json:"default_m,omitempty"`
+	// SamePathTags: some step has tagged values at the same path inside two fields of one stage; the engine
+	// may refuse such a text at preparation (its node ids collide).
+	SamePathTags bool `json:"same_path_tags,omitempty"`
 	// EnumDefault adds an optional input property `level` (enum_string low/high) with this default text.
 	EnumDefault string `json:"enum_default,omitempty"`
 	// DanglingInputRef makes the type of the input field `nested` refer to an object that is not declared.
